@@ -326,6 +326,12 @@ func buildController(sc *Scenario) (world, error) {
 	if err != nil {
 		return nil, err
 	}
+	// sync committee records of earlier slots, so that the clean-up of old records has something to do
+	for i := uint64(0); i < sc.P["pre"]; i++ {
+		if _, err := msgr.Message(context.Background(), newSyncDuty(accts, w.nVals, w.start-sc.P["pre"]+i)); err != nil {
+			return nil, err
+		}
+	}
 	w.sched = &ctlSched{jobs: map[string]*ctlJob{}}
 	evp := newEventsCapture()
 	ctx, cancel := context.WithCancel(context.Background())
@@ -346,7 +352,7 @@ func buildController(sc *Scenario) (world, error) {
 		controller.WithProposalsPreparer(ctlPreparer{}),
 		controller.WithScheduler(w.sched),
 		controller.WithAttester(att),
-		controller.WithSyncCommitteeMessenger(msgr),
+		controller.WithSyncCommitteeMessenger(newGuardedMessenger(msgr)),
 		controller.WithSyncCommitteeAggregator(agg),
 		controller.WithBeaconBlockHeadersProvider(node),
 		controller.WithSignedBeaconBlockProvider(node),
@@ -543,6 +549,7 @@ func init() {
 				"proposalDelay": rapid.SampledFrom([]uint64{0, 2}).Draw(t, "proposalDelay"),
 				"fastAtt":       rapid.Uint64Range(0, 1).Draw(t, "fastAtt"),
 				"fastSync":      rapid.Uint64Range(0, 1).Draw(t, "fastSync"),
+				"pre":           rapid.SampledFrom([]uint64{0, 98, 110}).Draw(t, "pre"),
 			}
 		},
 		build: buildController,
